@@ -35,3 +35,6 @@ def run(check: Check, repo: Repo, tier: str) -> None:
     X.cancel_catch(check, repo, mods)
     X.abort_wrap(check, repo)
     X.cancel_drains(check, repo)
+    X.unintegrated_work(check, repo)
+    X.abort_callback(check, repo)
+    X.handover_owner(check, repo)
